@@ -909,7 +909,24 @@ SPEC = {
 
 
 def run(ctx):
-    return propcheck.standard_check(ctx, SPEC)
+    rc = propcheck.standard_check(ctx, SPEC)
+    # the big cases have no model answer: they do not count as traces validated against the implementation
+    import json, os
+    try:
+        p = os.path.join(vlib.ROOT, 'evidence', 'C13.json')
+        ev = json.load(open(p))
+        cov = ev['coverage']
+        skipped = {k: v for k, v in cov.get('kinds', {}).items() if k.endswith('model-skipped')}
+        n = sum(skipped.values())
+        if n and cov.get('traces_validated_against_impl', 0) >= n:
+            cov['traces_validated_against_impl'] -= n
+            cov['model_skipped'] = {'cases': skipped,
+                                    'note': 'implementation only: the runner answers model-skipped (object maps of 12 000 .. 300 000 entries), '
+                                            'the direct verdict (no panic, hang or abort on a thread with the stated stack) decides alone'}
+            json.dump(ev, open(p, 'w'), indent=1)
+    except Exception as e:
+        print('note: evidence post-processing failed: %r' % (e,))
+    return rc
 
 
 MANIFEST = {
